@@ -128,6 +128,18 @@ example :
       [.txsConfirmed 101 [1], .bestBlock 101, .txsConfirmed 104 [2], .bestBlock 104, .txsConfirmed 106 [], .bestBlock 106] := by
   decide
 
+/-- Highly redundant: re-announcing every earlier non-empty block's transactions before each new
+    block is admissible as well. -/
+theorem redundant_admissible (style : Block → BlockStyle) (b0 : Nat) (c : Chain) (hs : Sorted b0 c) :
+    Presents b0 c (presentsRedundant style [] c) :=
+  presentsRedundant_Presents style hs
+
+example :
+    let c : Chain := [⟨101, [1]⟩, ⟨102, []⟩, ⟨103, [2]⟩]
+    presentsRedundant (fun _ => {}) [] c =
+      [.txsConfirmed 101 [1], .bestBlock 101, .txsConfirmed 101 [1], .txsConfirmed 102 [], .bestBlock 102,
+       .txsConfirmed 101 [1], .txsConfirmed 103 [2], .bestBlock 103] := by decide
+
 /-- non-vacuity: three genuinely different op lists for one chain, equal conclusions (here even
     as lists), and a conclusion that is not trivial -/
 example :
